@@ -895,6 +895,13 @@ class first_file(object):
         raise ContentException("None of [%s] found." % ', '.join(self.paths))
 
 
+def _is_inside_root(path, root):
+    """True when the real location of ``path`` is ``root`` or lies beneath it."""
+    resolved = os.path.realpath(path)
+    real_root = os.path.realpath(root)
+    return resolved == real_root or resolved.startswith(real_root.rstrip(os.sep) + os.sep)
+
+
 class listdir(object):
     """
     Execute a simple directory listing of all the files and directories in
@@ -925,6 +932,8 @@ class listdir(object):
         ctx = _get_context(self.context, broker)
         p = os.path.join(ctx.root, self.path.lstrip('/'))
         p = ctx.locate_path(p)
+        if not _is_inside_root(p, ctx.root):
+            raise ContentException("Path points outside the root: %s" % p)
         try:
             result = os.listdir(p)
         except OSError as e:
